@@ -119,10 +119,14 @@ pub fn drive(seed: u64, tier: &str, stim: Option<&str>, out: &mut Out) {
                 continue;
             }
             let tiles: Vec<(u64, Vec<u8>)> = {
-                let mut id = rng.below(50);
+                let mut id = 0u64; // the first tile is tile 0
+                let mut first = true;
                 (0..sz)
                     .map(|i| {
-                        id += 1 + rng.below(1 << 16) * (rng.below(3) / 2);
+                        if !first {
+                            id += 1 + rng.below(1 << 16) * (rng.below(3) / 2);
+                        }
+                        first = false;
                         let c = if i % 6 == 5 { vec![1, 2, 3] } else { let l = 1 + rng.below(200) as usize; rng.bytes(l) };
                         (id, c)
                     })
@@ -154,6 +158,12 @@ pub fn drive(seed: u64, tier: &str, stim: Option<&str>, out: &mut Out) {
             n += 1;
             // range-filtered opens of the sync-written file through both readers
             if let Some(b) = &files[0] {
+                for r in [(Bound::Unbounded, Bound::Excluded(0u64)), (Bound::Included(0u64), Bound::Excluded(0u64)),
+                          (Bound::Included(0u64), Bound::Included(0u64)), (Bound::Excluded(0u64), Bound::Unbounded)] {
+                    out.emit(json!({"ev": "Twin", "what": "partial_open", "none_codec": false, "bytes_sync": 0, "bytes_async": 0,
+                                    "views": [view_sync(b, Some(&r), &mut ctx), view_async(b, Some(&r), &mut ctx)]}));
+                    n += 1;
+                }
                 for _ in 0..4 {
                     let (a, z) = (rng.below(tiles.len().max(1) as u64) as usize, rng.below(tiles.len().max(1) as u64) as usize);
                     let lo = tiles.get(a.min(z)).map_or(0, |t| t.0);
@@ -211,6 +221,21 @@ pub fn drive(seed: u64, tier: &str, stim: Option<&str>, out: &mut Out) {
         lists.push(gen_valid_dir(&mut rng, len, i % 2 == 0));
     }
     lists.push((0..3000u64).map(|i| Entry { tile_id: i, run_length: 1, length: 50, offset: 50 * i }).collect());
+    // index 44 (a multiple of 4: exercised by the write_directories twins): irregular, large enough to spill under every codec
+    while lists.len() % 4 != 0 {
+        lists.push(vec![]);
+    }
+    lists.push({
+        let mut v = Vec::new();
+        let (mut id, mut off) = (0u64, 0u64);
+        for _ in 0..7000 {
+            id += 1 + rng.below(1 << 20);
+            let len = 1 + rng.below(60_000) as u32;
+            v.push(Entry { tile_id: id, run_length: 1, length: len, offset: off });
+            off += u64::from(len) + rng.below(3);
+        }
+        v
+    });
     for (li, es) in lists.iter().enumerate() {
         for c in 1u8..=4 {
             let (ws, bs) = dir_write(es, c, false, &mut toks);
@@ -229,6 +254,10 @@ pub fn drive(seed: u64, tier: &str, stim: Option<&str>, out: &mut Out) {
             n += 1;
             if li % 4 == 0 {
                 // write_directories twins: written root (decompressed) and leaf section resolution
+              for strat in [None, Some(pmtiles2::util::WriteDirsOverflowStrategy::OnlyLeafPointers { start_size: Some(512) })] {
+                if strat.is_some() && es.len() < 5000 {
+                    continue;
+                }
                 let mut views = Vec::new();
                 let mut bts = Vec::new();
                 for is_async in [false, true] {
@@ -237,12 +266,12 @@ pub fn drive(seed: u64, tier: &str, stim: Option<&str>, out: &mut Out) {
                     let r = guard(|| {
                         if is_async {
                             let mut cur = futures::io::Cursor::new(&mut buf);
-                            let r = block_on(write_directories_async(&mut cur, es, comp_of(c), None));
+                            let r = block_on(write_directories_async(&mut cur, es, comp_of(c), strat));
                             pos = cur.position();
                             r
                         } else {
                             let mut cur = Cursor::new(&mut buf);
-                            let r = write_directories(&mut cur, es, comp_of(c), None);
+                            let r = write_directories(&mut cur, es, comp_of(c), strat);
                             pos = cur.position();
                             r
                         }
@@ -294,6 +323,7 @@ pub fn drive(seed: u64, tier: &str, stim: Option<&str>, out: &mut Out) {
                 out.emit(json!({"ev": "Twin", "what": "write_directories", "comp": c, "none_codec": c == 1,
                                 "bytes_sync": bts[0], "bytes_async": bts[1], "views": views}));
                 n += 1;
+              }
             }
         }
     }
